@@ -207,6 +207,13 @@ func noopWanted(di int, d noopDef, vn string, vi int, hs int, thorough bool) boo
 		}
 		return thorough || d.name == "defmac" || di == vi%len(noopDefs) || di == (vi+5)%len(noopDefs)
 	}
+	for _, pre := range []string{"unquote-", "route-", "then-hostmacro-", "apply-"} {
+		// the nesting, route and entry dimensions without set-up: only for the kinds whose first
+		// definition has an effect when the text is compiled or declares process-wide names
+		if strings.HasPrefix(vn, pre) && hs == 0 && !thorough {
+			return d.name == "def" || d.name == "defmac" || d.name == "struct" || d.name == "package"
+		}
+	}
 	if strings.HasPrefix(vn, "failing-") && hs == 0 {
 		var i int
 		fmt.Sscanf(vn, "failing-%d", &i)
